@@ -33,7 +33,11 @@ def showState (s : State) : String :=
   s!"] prop={s.proposer} ptot={s.prevTot}" ++
   -- the second denomination, only when somebody holds some (older histories print as before)
   (if s.bal2.isEmpty && s.supply2 == 0 then "" else
-    " b2[" ++ joinSep "," (s.bal2.map fun e => s!"{e.1}={e.2}") ++ s!"] s2={s.supply2}")
+    " b2[" ++ joinSep "," (s.bal2.map fun e => s!"{e.1}={e.2}") ++ s!"] s2={s.supply2}") ++
+  -- the governance-controlled state: the tracked parameters, the DAO owner, the upgrade plan, the access-control list
+  s!" gov[ms={s.p.minStake},mv={s.p.maxVals},ut={s.p.unstakingTime},w={s.p.window},mspw={s.p.minSignedRaw},jd={s.p.jailDur}," ++
+  s!"mea={s.p.maxAge},sfds={s.p.sfDouble},sfdt={s.p.sfDown},memo={s.p.maxMemo},daoo={s.daoOwner},upg={s.upgrade.1}:{s.upgrade.2}]" ++
+  " acl[" ++ joinSep "," (s.acl.map fun e => s!"{e.1}={e.2}") ++ "]"
 
 structure ChainProg where
   st : Option State     -- none = no chain / halted
@@ -132,6 +136,11 @@ def stepChain (pr : ChainProg) (toks : List String) : ChainProg × String :=
     let keys := (kvOf rest "keys").splitOn ","
     let (s, ups) := initState rest mods keys
     ({ st := some s }, s!"ok ups={showUps ups} | {showState s}")
+  | "mon.export" :: _ =>
+    -- an implementation-side monitor (two fresh instances restarted from the exported state): nothing for the model to do
+    match pr.st with
+    | none => (pr, "dead")
+    | some _ => (pr, "done")
   | _ =>
     match pr.st with
     | none => (pr, "dead")
